@@ -18,7 +18,7 @@
 (*   file bytes.  Tag values: figure 5-10 and the OS / processor ranges     *)
 (*   DT_LOOS..DT_HIOS, DT_LOPROC..DT_HIPROC (names by OS ABI / e_machine).  *)
 (***************************************************************************)
-EXTENDS Bytes
+EXTENDS Bytes, TLC
 
 DynEnt(cls) == 2 * (cls \div 8)
 
@@ -36,7 +36,8 @@ DSig(a) == LET nz == {i \in 1..Len(a) : a[i] # 0} IN IF nz = {} THEN <<0>> ELSE 
 
 (* -------------------------------- entries ------------------------------ *)
 \* w little-endian digits of the field at 0-based offset `off`
-RdDigits(bs, off, w, le) == LET raw == [i \in 1..w |-> bs[off + i]] IN IF le THEN raw ELSE Rev(raw)
+\* (TLCEval: an explicit tuple - a lazily evaluated function would re-read the bytes at every later use of a digit)
+RdDigits(bs, off, w, le) == LET raw == [i \in 1..w |-> bs[off + i]] IN TLCEval(IF le THEN raw ELSE Rev(raw))
 \* entry n of the array that starts at 0-based offset `base` of `bs`: <<d_tag digits, d_un digits>>
 EntryAt(bs, base, n, cls, le) ==
   LET w == cls \div 8   o == base + n * DynEnt(cls) IN <<RdDigits(bs, o, w, le), RdDigits(bs, o + w, w, le)>>
@@ -50,9 +51,15 @@ ScanStep(bs, base, size, cls, le, st) ==
   ELSE IF (st.n + 1) * DynEnt(cls) > size \/ base + (st.n + 1) * DynEnt(cls) > Len(bs) \/ base < 0 THEN [st EXCEPT !.pc = "fault"]
   ELSE LET e == EntryAt(bs, base, st.n, cls, le) IN
        [pc |-> IF DIsZero(e[1]) THEN "done" ELSE "scan", n |-> st.n + 1, out |-> Append(st.out, e)]
-RECURSIVE ScanFrom(_, _, _, _, _, _)
-ScanFrom(bs, base, size, cls, le, st) == IF st.pc # "scan" THEN st ELSE ScanFrom(bs, base, size, cls, le, ScanStep(bs, base, size, cls, le, st))
-Scan(bs, base, size, cls, le) == ScanFrom(bs, base, size, cls, le, ScanStart)
+\* the machine's run in closed form (the state it stops in): the entries up to and including the first one whose d_tag
+\* is zero; "fault" with the whole entries of the extent when none is.  (Dynamic.tla checks RunAgrees: the action-level
+\* machine stops in exactly this state.)
+TagIsZeroAt(bs, base, n, cls) == \A i \in 1..(cls \div 8) : bs[base + n * DynEnt(cls) + i] = 0
+Scan(bs, base, size, cls, le) ==
+  LET avail == IF base < 0 THEN 0 ELSE Min({size, Max({0, Len(bs) - base})}) \div DynEnt(cls)
+      nulls == {n \in 0..(avail - 1) : TagIsZeroAt(bs, base, n, cls)}
+      k == IF nulls = {} THEN avail ELSE Min(nulls) + 1 IN
+  [pc |-> IF nulls = {} THEN "fault" ELSE "done", n |-> k, out |-> TLCEval([n \in 1..k |-> EntryAt(bs, base, n - 1, cls, le)])]
 
 \* first entry bearing the tag code `c` (significant digits), 0 if none
 FirstOf(out, c) == LET hits == {i \in 1..Len(out) : DSig(out[i][1]) = c} IN IF hits = {} THEN 0 ELSE Min(hits)
